@@ -216,7 +216,7 @@ def _run_scenario(spec, res):
     fn = _load_fn(spec)
     params = spec.get("params", {})
     eng = Engine(spec["name"])
-    eng.feas_opts = dict(spec.get("feas_opts") or {})
+    eng.feas_opts = dict(Engine.feas_opts, **(spec.get("feas_opts") or {}))
     inject.activate(eng)
     max_paths = spec.get("max_paths", 64)
     timeouts = tuple(spec.get("vc_timeouts", (2, 20)))
